@@ -131,7 +131,7 @@ def window_extensions(case):
     out = {}
     for ci, c in enumerate(case["conns"]):
         if "train" in c:
-            out[ci] = int(math.ceil(round(case["rates"][c["src"]] * (c["train"]["max"] - c["train"]["min"]), 9)))
+            out[ci] = int(math.ceil(case["rates"][c["src"]] * (c["train"]["max"] - c["train"]["min"])))  # same float expression as documented: ceil(rate * (max - min))
     return out
 
 
